@@ -30,13 +30,15 @@ class _HardSigmoidFusionBase(pattern.RewriteRuleClassBase):
     ) -> MatchResult:
         check_result = MatchResult()
 
-        if not is_singleton_value(clip_min, 0.0, rtol=1e-4):
+        # 0, 6 and 3 are exactly representable in every float type: compare exactly
+        # (a constant merely close to them is a different function).
+        if not is_singleton_value(clip_min, 0):
             return check_result.fail("Swish requires min value of 0 for clip")
-        if not is_singleton_value(clip_max, 6.0, rtol=1e-4):
+        if not is_singleton_value(clip_max, 6):
             return check_result.fail("Swish requires max value of 6 for clip")
-        if not is_singleton_value(bias, 3.0, rtol=1e-4):
+        if not is_singleton_value(bias, 3):
             return check_result.fail("Swish requires bias value of 3")
-        if not is_singleton_value(divisor, 6.0, rtol=1e-4):
+        if not is_singleton_value(divisor, 6):
             return check_result.fail("Swish requires divisor value of 6")
         return check_result
 
